@@ -126,8 +126,10 @@ def run(rep, tier):
         raise AnalysisBroken("thread_pool_scheduler::execute not found")
     for fn in ex:
         rw = [ev for _, _, ev in fn.all_events() if ev.get("k") == "call" and callee_short(ev) == "register_work"]
-        d = [ev for _, _, ev in fn.all_events() if ev.get("k") == "decl" and ev.get("var") == "data"]
-        ok = len(rw) == 1 and len(rw[0]["args"]) >= 2 and origin(fn, rw[0]["args"][1]) == "this->pool_" and P(rw[0]["args"][0]) == "data"
+        # the init-data object is whatever local is handed to register_work
+        dv = P(rw[0]["args"][0]) if len(rw) == 1 and rw[0].get("args") else None
+        d = [ev for _, _, ev in fn.all_events() if ev.get("k") == "decl" and ev.get("var") == dv]
+        ok = len(rw) == 1 and len(rw[0]["args"]) >= 2 and origin(fn, rw[0]["args"][1]) == "this->pool_" and bool(d)
         txt = T(d[0].get("init")) if d else ""
         okd = all(x in txt for x in ("this->priority_", "this->schedulehint_", "this->stacksize_"))
         if ok and okd:
@@ -240,7 +242,21 @@ def run(rep, tier):
                 if re.search(r"~\(?(pika::threads::scheduler_mode::)?%s\b" % bit, t) and call and \
                         precedes_on_all_paths(fn, lambda e, ev=ev: e is ev, (call[0][0], call[0][1])):
                     masks.add(bit)
-        if call and masks == {"enable_stealing", "enable_stealing_numa"} and P(call[0][2]["args"][0]) == "mode":
+        # evaluated: with every bit of the incoming mode set, what reaches scheduler_base::set_scheduler_mode has exactly the two
+        # stealing bits cleared (whatever locals / reassignments / casts the masking is written with)
+        evaluated_ok = False
+        sm = PL.enums.get("pika::threads::scheduler_mode") or {}
+        if call and fn.params and "enable_stealing" in sm and "enable_stealing_numa" in sm:
+            from engine.kinds import interp as _in4, eval_tree as _ev4, Unknown as _Un4
+            ALL = 0xFFFFFFFF
+            steal = sm["enable_stealing"] | sm["enable_stealing_numa"]
+            try:
+                res4 = _in4(fn, {fn.params[0]["name"]: ALL}, until=lambda e: e is call[0][2], unknown_both=False)
+                vals = [_ev4(call[0][2]["args"][0], r_[1]) & ALL for r_ in res4 if r_[0] == "stop"]
+                evaluated_ok = bool(vals) and all(v == (ALL & ~steal) for v in vals) and all(r_[0] == "stop" for r_ in res4)
+            except (_Un4, TypeError, KeyError):
+                evaluated_ok = False
+        if evaluated_ok or (call and masks == {"enable_stealing", "enable_stealing_numa"} and P(call[0][2]["args"][0]) == "mode"):
             rep.ok("C10.R4", fn, "%s::set_scheduler_mode clears enable_stealing and enable_stealing_numa before delegating" % cls)
         else:
             rep.bad("C10.R4", fn, fn.loc, "mode-mask", "%s::set_scheduler_mode must mask out both stealing bits (found %s): a static policy would start stealing" % (cls, sorted(masks)))
@@ -571,7 +587,8 @@ def run(rep, tier):
                     if t not in blocking and (t == b or _re_skip(f, t, b, blocking)):
                         moved = (b, i, e)
             if moved:
-                rep.bad("C10.R11", f, loc_of(blk.events[-1]) if blk.events else f.loc, "busy-mutex-skips-pu:" + ("loop" if f.parent == -1 else "retry-lambda"), "select_active_pu goes on to the next "
+                # reported against select_active_pu itself: a lambda's name carries its line number, which is not an identity
+                rep.bad("C10.R11", sap[0], loc_of(blk.events[-1]) if blk.events else f.loc, "busy-mutex-skips-pu:" + ("loop" if f.parent == -1 else "retry-lambda"), "select_active_pu goes on to the next "
                         "worker (%s at %s) on the path where try_to_lock on the hinted worker's PU mutex did not succeed: a mutex that is merely busy - another thread is enqueuing "
                         "for the same worker - is treated like a suspended PU, and the task is queued on the neighbouring worker" % (P(moved[2]["lhs"]) + moved[2].get("op", ""), loc_of(moved[2]).rsplit("/", 1)[-1]))
             else:
